@@ -37,6 +37,7 @@ def run(ctx):
     queryvar.pair_quoting(ctx, roles(ctx.model))
     immut.im3(ctx)
     immut.im6(ctx)
+    immut.im12(ctx)     # nothing on the rendering path is memoised on a key that identifies distinct values (0.0 == -0.0, 1 == 1.0 == True)
     pols, cfgs = quoter_audits(ctx, ch2=False)
     for backend, byname in pols.items():
         from ..rules import tables
